@@ -1,5 +1,6 @@
 // Package c19 checks property C19: the yoda daemon files exactly one complete, chain-acceptable
-// report per request.  Engine: gosched — the real handleTransaction -> handleRequest ->
+// report per request.  (runloop.go: the scenarios that run the real runImpl main loop and SubmitReport against an
+// in-memory node and observe the broadcast report transactions.)  Engine: gosched — the real handleTransaction -> handleRequest ->
 // handleRawRequests -> handleRawRequest -> GetExecutable code, instrumented so that every goroutine
 // creation, channel operation, sleep and atomic is a scheduling point, runs under a controlled
 // scheduler; all interleavings up to a preemption bound and all executor / RPC fault placements up
@@ -106,6 +107,10 @@ func getChain(worker int) *chain {
 	mkReq("D", []int64{c.dsMid}, 3)
 	mkReq("E", []int64{c.dsLong, c.dsMid, c.dsShort}, 3)
 	mkReq("F", []int64{c.dsShort, c.dsMid, c.dsLong, c.dsShort, c.dsMid, c.dsLong, c.dsShort, c.dsMid, c.dsLong}, 3) // nine raw requests
+	// three more one-raw-request requests (used by the run-loop scenarios, which need four requests that select the validator)
+	mkReq("G", []int64{c.dsShort}, 3)
+	mkReq("H", []int64{c.dsMid}, 3)
+	mkReq("I", []int64{c.dsShort}, 3)
 	// the daemon's validator: one that request C did NOT select
 	chosenC := w.App.OracleKeeper.MustGetRequest(ctx, oracletypes.RequestID(c.reqs["C"])).RequestedValidators[0]
 	for _, v := range bandtesting.Validators {
@@ -294,101 +299,110 @@ func scenarioS(name string, reqNames []string, startup []string, maxTry uint64) 
 			if len(s.Panics) > 0 || s.Deadlock || s.Livelock {
 				return "aborted", nil // reported by the explorer itself
 			}
-			unrun := map[string]int{} // file hash -> raw reports filed as 255 without the executor having been asked
-			byReq := map[uint64][]*oracletypes.MsgReportData{}
-			for _, m := range r.msgs {
-				byReq[uint64(m.RequestID)] = append(byReq[uint64(m.RequestID)], m)
-			}
-			var sig []string
-			for _, n := range split(reqNames) {
-				id := c.reqs[n]
-				got := byReq[id]
-				if !c.mine[id] {
-					if len(got) != 0 {
-						add("report-for-request-not-selecting-validator", "request %s (%d): %d reports", n, id, len(got))
-					}
-					sig = append(sig, n+":none")
-					continue
-				}
-				if len(got) != 1 {
-					fp := "request-dropped"
-					if len(got) > 1 {
-						fp = "request-reported-more-than-once"
-					}
-					add(fp, "request %s (%d) selecting the validator produced %d queued reports", n, id, len(got))
-					continue
-				}
-				m := got[0]
-				if m.Validator != c.validator.String() {
-					add("report-validator-field", "%s", m.Validator)
-				}
-				want := c.raw[id]
-				seen := map[uint64]int{}
-				for _, rr := range m.RawReports {
-					seen[uint64(rr.ExternalID)]++
-				}
-				if len(m.RawReports) != len(want) {
-					add("raw-report-count", "request %s: %d raw reports for %d raw requests", n, len(m.RawReports), len(want))
-				}
-				var codes []string
-				for _, rq := range want {
-					eid := uint64(rq.ExternalID)
-					if seen[eid] != 1 {
-						add("raw-report-missing-or-duplicated", "request %s external id %d appears %d times", n, eid, seen[eid])
-						continue
-					}
-					var rr oracletypes.RawReport
-					for _, x := range m.RawReports {
-						if uint64(x.ExternalID) == eid {
-							rr = x
-						}
-					}
-					key := fmt.Sprint(id, "/", eid)
-					a, ran := r.answers[key]
-					// the executor must have been given the data source's own executable (its file name is the hash of its content)
-					if ran && r.exeHash[key] != c.dsHash[int64(rq.DataSourceID)] {
-						add("executor-run-with-wrong-executable", "request %s eid %d: executable with hash %.8s run for data source %d whose executable has hash %.8s", n, eid, r.exeHash[key], rq.DataSourceID, c.dsHash[int64(rq.DataSourceID)])
-					}
-					switch {
-					case !ran: // the executable could not be fetched (or the executor was never reached)
-						if rr.ExitCode != 255 {
-							add("unfetched-data-source-not-255", "request %s eid %d: exit code %d", n, eid, rr.ExitCode)
-						}
-						unrun[c.dsHash[int64(rq.DataSourceID)]]++
-					case a == execOK:
-						if rr.ExitCode != 0 || string(rr.Data) != "ok-"+key {
-							add("executor-result-not-carried", "request %s eid %d: (%d,%q), executor said (0,%q)", n, eid, rr.ExitCode, rr.Data, "ok-"+key)
-						}
-					case a == execExit1:
-						if rr.ExitCode != 1 || string(rr.Data) != "exit1-"+key {
-							add("executor-result-not-carried", "request %s eid %d: (%d,%q), executor said (1,%q)", n, eid, rr.ExitCode, rr.Data, "exit1-"+key)
-						}
-					case a == execError:
-						if rr.ExitCode != 255 {
-							add("executor-error-not-255", "request %s eid %d: exit code %d", n, eid, rr.ExitCode)
-						}
-					}
-					codes = append(codes, fmt.Sprint(rr.ExitCode))
-				}
-				// chain-side validation of the produced message (real handler on the base state)
-				ctx := engine.Fork(c.w.App.BaseApp.NewUncachedContext(false, cmtHeader()))
-				if res := c.w.Tx(ctx, 0, m); !res.OK() {
-					add("report-rejected-by-chain", "request %s: %v", n, res.Err)
-				}
-				sig = append(sig, n+":"+strings.Join(codes, ","))
-			}
-			// "255 when the data source could not be fetched": every raw report filed as unfetched needs its own maxTry
-			// failed fetch attempts; a failure must not be shared between raw requests or remembered
-			for h, k := range unrun {
-				if r.fetchErr[h] < k*int(maxTry) {
-					add("reported-unfetched-without-having-failed-to-fetch", "%d raw reports for executable %s were filed as 255 without running, but only %d fetch attempts failed (maxTry %d)", k, h[:8], r.fetchErr[h], maxTry)
-				}
-			}
+			sig := judgeReports(r, split(reqNames), r.msgs, "queued reports", add)
 			sort.Strings(sig)
 			return strings.Join(sig, " "), viol
 		}
 		return body, check
 	}}
+}
+
+// judgeReports is the per-request oracle shared by all scenarios: every request in `names` that selects the validator has
+// exactly one report among msgs, complete and carrying what the executor answered (or 255), and acceptable to the chain;
+// requests that do not select it have none.  `where` says where msgs were observed (for the violation text).  It returns
+// the per-request outcome labels.
+func judgeReports(r *run, names []string, msgs []*oracletypes.MsgReportData, where string, add func(fp, f string, a ...any)) (sig []string) {
+	c, maxTry := r.c, r.maxTry
+	unrun := map[string]int{} // file hash -> raw reports filed as 255 without the executor having been asked
+	byReq := map[uint64][]*oracletypes.MsgReportData{}
+	for _, m := range msgs {
+		byReq[uint64(m.RequestID)] = append(byReq[uint64(m.RequestID)], m)
+	}
+	for _, n := range names {
+		id := c.reqs[n]
+		got := byReq[id]
+		if !c.mine[id] {
+			if len(got) != 0 {
+				add("report-for-request-not-selecting-validator", "request %s (%d): %d reports", n, id, len(got))
+			}
+			sig = append(sig, n+":none")
+			continue
+		}
+		if len(got) != 1 {
+			fp := "request-dropped"
+			if len(got) > 1 {
+				fp = "request-reported-more-than-once"
+			}
+			add(fp, "request %s (%d) selecting the validator produced %d %s", n, id, len(got), where)
+			continue
+		}
+		m := got[0]
+		if m.Validator != c.validator.String() {
+			add("report-validator-field", "%s", m.Validator)
+		}
+		want := c.raw[id]
+		seen := map[uint64]int{}
+		for _, rr := range m.RawReports {
+			seen[uint64(rr.ExternalID)]++
+		}
+		if len(m.RawReports) != len(want) {
+			add("raw-report-count", "request %s: %d raw reports for %d raw requests", n, len(m.RawReports), len(want))
+		}
+		var codes []string
+		for _, rq := range want {
+			eid := uint64(rq.ExternalID)
+			if seen[eid] != 1 {
+				add("raw-report-missing-or-duplicated", "request %s external id %d appears %d times", n, eid, seen[eid])
+				continue
+			}
+			var rr oracletypes.RawReport
+			for _, x := range m.RawReports {
+				if uint64(x.ExternalID) == eid {
+					rr = x
+				}
+			}
+			key := fmt.Sprint(id, "/", eid)
+			a, ran := r.answers[key]
+			// the executor must have been given the data source's own executable (its file name is the hash of its content)
+			if ran && r.exeHash[key] != c.dsHash[int64(rq.DataSourceID)] {
+				add("executor-run-with-wrong-executable", "request %s eid %d: executable with hash %.8s run for data source %d whose executable has hash %.8s", n, eid, r.exeHash[key], rq.DataSourceID, c.dsHash[int64(rq.DataSourceID)])
+			}
+			switch {
+			case !ran: // the executable could not be fetched (or the executor was never reached)
+				if rr.ExitCode != 255 {
+					add("unfetched-data-source-not-255", "request %s eid %d: exit code %d", n, eid, rr.ExitCode)
+				}
+				unrun[c.dsHash[int64(rq.DataSourceID)]]++
+			case a == execOK:
+				if rr.ExitCode != 0 || string(rr.Data) != "ok-"+key {
+					add("executor-result-not-carried", "request %s eid %d: (%d,%q), executor said (0,%q)", n, eid, rr.ExitCode, rr.Data, "ok-"+key)
+				}
+			case a == execExit1:
+				if rr.ExitCode != 1 || string(rr.Data) != "exit1-"+key {
+					add("executor-result-not-carried", "request %s eid %d: (%d,%q), executor said (1,%q)", n, eid, rr.ExitCode, rr.Data, "exit1-"+key)
+				}
+			case a == execError:
+				if rr.ExitCode != 255 {
+					add("executor-error-not-255", "request %s eid %d: exit code %d", n, eid, rr.ExitCode)
+				}
+			}
+			codes = append(codes, fmt.Sprint(rr.ExitCode))
+		}
+		// chain-side validation of the produced message (real handler on the base state)
+		ctx := engine.Fork(c.w.App.BaseApp.NewUncachedContext(false, cmtHeader()))
+		if res := c.w.Tx(ctx, 0, m); !res.OK() {
+			add("report-rejected-by-chain", "request %s: %v", n, res.Err)
+		}
+		sig = append(sig, n+":"+strings.Join(codes, ","))
+	}
+	// "255 when the data source could not be fetched": every raw report filed as unfetched needs its own maxTry
+	// failed fetch attempts; a failure must not be shared between raw requests or remembered
+	for h, k := range unrun {
+		if r.fetchErr[h] < k*int(maxTry) {
+			add("reported-unfetched-without-having-failed-to-fetch", "%d raw reports for executable %s were filed as 255 without running, but only %d fetch attempts failed (maxTry %d)", k, h[:8], r.fetchErr[h], maxTry)
+		}
+	}
+	return sig
 }
 
 func init() {
@@ -400,11 +414,12 @@ func init() {
 			if !quick {
 				pre, faults = 3, 2
 			}
-			r.Bound = fmt.Sprintf("(quick: the full preemption bound applies to the first scenario, 1 preemption to the others) scenarios: one request with a 3-byte and a 64-byte executable; a repeated data source plus a request that does not select the validator; two selecting requests concurrently; a request found pending at start-up whose tx event also arrives (at any time); three raw requests (64/25/3-byte executables); all goroutine interleavings with <=%d preemptions x <=%d environment deviations (executor exit 0 / exit 1 / error per raw request; RPC failure on any query attempt, never persistent for request and data-source-hash queries; persistent for the executable fetch with maxTry=2)", pre, faults)
+			r.Bound = fmt.Sprintf("(quick: the full preemption bound applies to the first scenario, 1 preemption to the others) scenarios: one request with a 3-byte and a 64-byte executable; a repeated data source plus a request that does not select the validator; two selecting requests concurrently; a request found pending at start-up whose tx event also arrives (at any time); three raw requests (64/25/3-byte executables); all goroutine interleavings with <=%d preemptions x <=%d environment deviations (executor exit 0 / exit 1 / error per raw request; RPC failure on any query attempt, never persistent for request and data-source-hash queries; persistent for the executable fetch with maxTry=2); run-loop scenarios (real runImpl + SubmitReport against an in-memory node; observed: the report transactions broadcast to the node; one reporter key, max-report=2, tx found committed at the first 100 ms poll): requests committed between the daemon's two start-up calls and after them (<=%d preemptions, 0 deviations), the same plus one committed while the daemon was down (non-preemptive schedules, capped), four requests in successive blocks 10 ms apart while the first report's tx is in flight (<=%d preemptions), four requests created by one transaction (non-preemptive schedules, capped)", pre, faults, runPre(quick), runPre(quick)+1)
 			r.Assumptions = []string{
 				"scheduling points are goroutine creation, channel operations, sleeps and atomics of the instrumented yoda files; data races between scheduling points are the subject of a separate free-running -race pass",
 				"RPC answers come from the real application's Query on a committed state; executor and keyring are in-process fakes",
 				"persistent failure of the request or data-source-hash query is outside the alphabet (the daemon cannot know the request then)",
+				"run-loop scenarios: the node accepts every broadcast (code 0, sequence = number of accepted transactions) and reports it committed with code 0 from 50 ms after the broadcast on; events are published only to the subscriber existing at commit time; the PendingRequests answer is the real application's, restricted to the requests committed so far on the node's timeline; each of the daemon's two start-up calls takes 1 ms during which the chain may commit; no RPC/executor deviations and no broadcast failures in these scenarios",
 			}
 			if b, err := os.ReadFile(filepath.Join(os.Getenv("VERIF_BUILD"), "race-C19.out")); err == nil && !quick {
 				lines := strings.Split(strings.TrimSpace(string(b)), "\n")
@@ -422,6 +437,42 @@ func init() {
 			}
 			if !quick {
 				scs = append(scs, scenario("two-requests-concurrently", []string{"D", "A"}, 3), scenario("three-raw-requests", []string{"E"}, 3), scenario("three-requests-concurrently", []string{"A", "B", "D"}, 3))
+			}
+			only := os.Getenv("VERIF_C19_ONLY") // development: run only the scenarios whose name contains this
+			if only != "" {
+				r.Exhaustive = false
+				r.CapReasons = append(r.CapReasons, "development filter VERIF_C19_ONLY="+only+": other scenarios skipped")
+			}
+			explore := func(sc gosched.Scenario, b gosched.Bounds) {
+				if only != "" && !strings.Contains(sc.Name, only) {
+					return
+				}
+				t0 := time.Now()
+				st := gosched.Explore(sc, b)
+				r.States += int(st.Executions)
+				r.Transitions += int(st.Points)
+				r.Traces += int(st.Executions)
+				r.Evaluations += int(st.Executions)
+				r.Distinct += len(st.Outcomes)
+				for k, v := range st.Outcomes {
+					r.Outcomes["outcome["+sc.Name+"]: "+k] += v
+				}
+				if !st.Exhaustive {
+					r.Exhaustive = false
+					reason := "time cap"
+					if b.MaxExecutions > 0 && st.Executions >= b.MaxExecutions {
+						reason = fmt.Sprintf("execution cap %d (first schedules in depth-first order)", b.MaxExecutions)
+					}
+					r.CapReasons = append(r.CapReasons, sc.Name+": "+reason)
+				}
+				for i, s := range st.Samples {
+					if i < 2 {
+						r.Samples = append(r.Samples, map[string]any{"scenario": sc.Name, "choices": s})
+					}
+				}
+				r.Violations = append(r.Violations, st.Violations...)
+				r.Configs = append(r.Configs, map[string]any{"scenario": sc.Name, "executions": st.Executions, "choice_points": st.Points, "max_points": st.MaxPoints, "distinct_outcomes": len(st.Outcomes), "preemptions": b.Preemptions, "faults": b.Faults, "exhaustive": st.Exhaustive})
+				fmt.Printf("[C19] %s: executions=%d choice-points=%d max-points=%d distinct-outcomes=%d violations=%d exhaustive=%v wall=%.1fs\n", sc.Name, st.Executions, st.Points, st.MaxPoints, len(st.Outcomes), len(st.Violations), st.Exhaustive, time.Since(t0).Seconds())
 			}
 			for i, sc := range scs {
 				b := gosched.Bounds{Preemptions: pre, Faults: faults, Deadline: deadline}
@@ -450,33 +501,13 @@ func init() {
 						b.Preemptions, b.Faults = 1, 1
 					}
 				}
-				st := gosched.Explore(sc, b)
-				r.States += int(st.Executions)
-				r.Transitions += int(st.Points)
-				r.Traces += int(st.Executions)
-				r.Evaluations += int(st.Executions)
-				r.Distinct += len(st.Outcomes)
-				for k, v := range st.Outcomes {
-					r.Outcomes["outcome["+sc.Name+"]: "+k] += v
-				}
-				if !st.Exhaustive {
-					r.Exhaustive = false
-					reason := "time cap"
-					if b.MaxExecutions > 0 && st.Executions >= b.MaxExecutions {
-						reason = fmt.Sprintf("execution cap %d (first schedules in depth-first order)", b.MaxExecutions)
-					}
-					r.CapReasons = append(r.CapReasons, sc.Name+": "+reason)
-				}
-				for i, s := range st.Samples {
-					if i < 2 {
-						r.Samples = append(r.Samples, map[string]any{"scenario": sc.Name, "choices": s})
-					}
-				}
-				r.Violations = append(r.Violations, st.Violations...)
-				r.Configs = append(r.Configs, map[string]any{"scenario": sc.Name, "executions": st.Executions, "choice_points": st.Points, "max_points": st.MaxPoints, "distinct_outcomes": len(st.Outcomes), "preemptions": b.Preemptions, "faults": b.Faults, "exhaustive": st.Exhaustive})
-				fmt.Printf("[C19] %s: executions=%d choice-points=%d max-points=%d distinct-outcomes=%d violations=%d exhaustive=%v\n", sc.Name, st.Executions, st.Points, st.MaxPoints, len(st.Outcomes), len(st.Violations), st.Exhaustive)
+				explore(sc, b)
 			}
-			r.Rule = "a case is one complete controlled execution (schedule + environment answers); distinct_nontrivial counts distinct observed outcomes (per request: exit codes of its raw reports) summed over scenarios"
+			rsc, rb := runLoopScenarios(quick, deadline)
+			for i := range rsc {
+				explore(rsc[i], rb[i])
+			}
+			r.Rule = "a case is one complete controlled execution (schedule + environment answers); distinct_nontrivial counts distinct observed outcomes (per request: exit codes of its raw reports; run-loop scenarios also: the numbers of reports in the successive broadcast transactions) summed over scenarios"
 		},
 		Replay: func(raw json.RawMessage, path []string) (engine.StepResult, []string) {
 			return engine.StepResult{}, []string{"gosched counterexample: the config names the scenario, the path is the choice list; re-run `bin/check C19 quick`"}
